@@ -55,8 +55,8 @@ func TestRegressTour(t *testing.T) {
 		opT{K: "create", P: "d"}, opT{K: "write", P: "d", Len: L, Seed: 2},
 		opT{K: "forget", Pref: "orphan"}, opT{K: "forget", Pref: "live", Amt: 1},
 		opT{K: "mkdir", P: "c"}, opT{K: "rename", P: "a/b", Q: "c"}, // over an empty directory
-		opT{K: "rename", P: "c", Q: "c/x"},                          // into its own subtree: EINVAL
-		opT{K: "rename", P: "c/c", Q: "c"},                          // onto an ancestor: ENOTEMPTY
+		opT{K: "rename", P: "c", Q: "c/x"}, // into its own subtree: EINVAL
+		opT{K: "rename", P: "c/c", Q: "c"}, // onto an ancestor: ENOTEMPTY
 		opT{K: "unlink", P: "c"}, opT{K: "rmdir", P: "d"}, opT{K: "rmdir", P: "c"}, opT{K: "rmdir", P: "a"},
 		opT{K: "getattr", P: "c/c"}, opT{K: "readdir", P: "c"}, opT{K: "lookup", P: "a/b/c"},
 		opT{K: "unlink", P: "empty"}, opT{K: "create", P: "empty"},
